@@ -2,6 +2,7 @@ package expr
 
 import (
 	"fmt"
+	"reflect"
 	"strings"
 
 	"goa.design/goa/v3/eval"
@@ -728,7 +729,7 @@ func (a *AttributeExpr) validateEnumDefault(ctx string, parent eval.Expression) 
 	if a.DefaultValue != nil && a.Validation != nil && a.Validation.Values != nil {
 		var found bool
 		for _, e := range a.Validation.Values {
-			if e == a.DefaultValue {
+			if reflect.DeepEqual(e, a.DefaultValue) {
 				found = true
 				break
 			}
